@@ -4,7 +4,7 @@
 //! (`--cfg zlink_verif_small_buf`, 64 KiB; boundary sweeps in both directions).
 
 use crate::alloc;
-use crate::c03::{filler, FILLER_MIN};
+use crate::c03::{filler, filler_varied, FILLER_MIN};
 use crate::cfg::Cfg;
 use serde_json::json;
 use vnet::{new_wire, Report, Rx, VSocket};
@@ -280,12 +280,40 @@ fn check_outbound_inner(rep: &mut Report, pos: usize, len: usize, limit: usize, 
         }
     }
     assert_eq!(p, pos);
+    // the message under test: a plain padded string, or (every other case) a message whose tail is made of
+    // other kinds of values, so that something else than a string straddles the buffer end / the limit
+    let varied = if (pos + len) % 2 == 1 { filler_varied(len) } else { None };
+    if let Some(f) = varied {
+        rep.count("outbound_messages_with_varied_tail");
+        let res = conn.enqueue_call(&f);
+        let reference = serde_json::to_vec(&f).unwrap();
+        return finish_outbound(rep, conn, wire, expect, res, reference, pos, len, limit, step, label, &|c: &mut Connection<VSocket>| c.enqueue_call(&f));
+    }
     let f = filler(len);
     #[cfg(zlink_verif)]
     if std::env::var_os("ZV_DEBUG").is_some() {
         eprintln!("before final enqueue: {:?}", conn.write().verif_state());
     }
     let res = conn.enqueue_call(&f);
+    let reference = serde_json::to_vec(&f).unwrap();
+    finish_outbound(rep, conn, wire, expect, res, reference, pos, len, limit, step, label, &|c: &mut Connection<VSocket>| c.enqueue_call(&f))
+}
+
+#[allow(clippy::too_many_arguments)]
+fn finish_outbound(
+    rep: &mut Report,
+    mut conn: Connection<VSocket>,
+    wire: vnet::WireRef,
+    mut expect: Vec<u8>,
+    res: zlink_core::Result<()>,
+    reference: Vec<u8>,
+    pos: usize,
+    len: usize,
+    limit: usize,
+    step: usize,
+    label: &str,
+    again: &dyn Fn(&mut Connection<VSocket>) -> zlink_core::Result<()>,
+) {
     rep.eval(((pos as u64) << 24) ^ len as u64 ^ 0x77);
     let replay = json!({"monitor": "c17", "dir": "out", "pos": pos, "len": len, "limit": limit, "build": label});
     let end = pos + len + 1;
@@ -306,7 +334,7 @@ fn check_outbound_inner(rep: &mut Report, pos: usize, len: usize, limit: usize, 
                 rep.violation("C17/outbound-oversized-message-accepted", format!("pos {pos} + len {len} + 1 = {end} > limit {limit} + step"), replay.clone());
                 return;
             }
-            expect.extend(serde_json::to_vec(&f).unwrap());
+            expect.extend(reference);
             expect.push(0);
             rep.count("outbound_accepted");
         }
@@ -319,7 +347,7 @@ fn check_outbound_inner(rep: &mut Report, pos: usize, len: usize, limit: usize, 
             // a refused message stays refused: retrying it (or anything at least as large) must fail the same
             // way every time, and must not make the buffer creep beyond the limit
             for attempt in 0..6 {
-                match conn.enqueue_call(&f) {
+                match again(&mut conn) {
                     Err(Error::BufferOverflow) => {}
                     other => {
                         rep.violation("C17/refused-message-accepted-when-retried", format!("retry #{attempt} of a message refused with BufferOverflow returned {other:?} (pos {pos} len {len} limit {limit})"), replay.clone());
